@@ -489,11 +489,30 @@ pub fn c33(case: &Case, res: &[RunResult], obs: &mut Obs) -> Result<(), Fail> {
                         prev = Some(items[0].clone());
                     }
                 }
-                Promise::MonoKeys | Promise::MonoValue => {
+                Promise::MonoKeys | Promise::MonoValue | Promise::Typed => {
+                    // for typed outputs the promise is the code carried by the entries
+                    let mut typed_code: Option<u64> = None;
+                    if *promise == Promise::Typed {
+                        for (_, it) in r.outs.get(&o.name).cloned().unwrap_or_default() {
+                            typed_code = it[0].as_u64();
+                            break;
+                        }
+                        obs.class(format!("typed-bound:{}", match typed_code { Some(0) => "Unbounded", Some(1) => "MonotonicKeys", Some(2) => "MonotonicValue", Some(_) => "other", None => "unobserved" }));
+                        if !matches!(typed_code, Some(1) | Some(2)) {
+                            continue;
+                        }
+                    }
+                    let promise = &match typed_code {
+                        Some(1) => Promise::MonoKeys,
+                        Some(2) => Promise::MonoValue,
+                        _ => promise.clone(),
+                    };
+                    let typed = typed_code.is_some();
                     let mut prev: Option<BTreeMap<String, Value>> = None;
                     for t in 0..r.ticks {
                         let mut cur: BTreeMap<String, Value> = BTreeMap::new();
                         for it in r.tick_items(&o.name, t) {
+                            let it = if typed { serde_json::json!([it[1], it[2]]) } else { it };
                             if cur.insert(canon(&it[0]), it[1].clone()).is_some() {
                                 return Err(Fail::new(
                                     format!("c33/{label}/{}:{:?}/duplicate-key", o.name, promise),
